@@ -1066,7 +1066,8 @@ class _NameSanitizer(_NameIndexer):
     def is_valid_str(self, string):
         # A name that looks like one of our generated names is remapped too,
         # otherwise it could collide with the name generated for another string.
-        return (self.identifier.match(string) and self.extra_checks(string)
+        # (fullmatch: '$' alone also matches before a trailing newline)
+        return (self.identifier.fullmatch(string) and self.extra_checks(string)
                 and not string.startswith(self.internal_prefix))
 
     def make_valid_string(self, string=''):
